@@ -78,6 +78,14 @@ pub const DEF_POOL: &[&str] = &[
     "PRAGMA EXTERN 5 \"INTEGER\"",
     "PRAGMA EXTERN",
     "PRAGMA EXTERN foo",
+    // redefinitions whose overwritten body mentions a qubit used nowhere else (stale used-qubit cache)
+    "DEFCAL X 0:\n\tY 7",
+    "DEFCAL X 0:\n\tY 13",
+    "DEFCAL X 5:\n\tNOP",
+    "DEFCAL Y q:\n\tX q\n\tZ 9",
+    "DEFCAL Y q:\n\tX q",
+    "DEFCAL MEASURE 2 addr:\n\tX 11",
+    "DEFCAL MEASURE 2 addr:\n\tX 2",
     // ---- shapes shared with harness/src/progwire.rs EXTRA_POOL (copied, so that this pool is stable) ----
     // PRAGMA EXTERN in every shape: 0-3 arguments, first argument identifier / integer / none, with and
     // without data string, one name across arities, different names with equal tails (the key is the
